@@ -699,8 +699,8 @@ def _check_sold_percentage(rep, rule, m) -> None:
 
     def with_lot(t: Any) -> Any:
         # the branch of 'ZERO if no lot else f' that applies to fractions with a lot
-        if t[0] == "ite" and t[1][0] == "cmp" and tkey(t[1][2]) == tkey(lot) and t[1][3] == ("const", None):
-            return t[3] if t[1][1] == "is" else t[2]
+        while t[0] == "ite" and t[1][0] == "cmp" and tkey(t[1][2]) == tkey(lot) and t[1][3] == ("const", None):
+            t = t[3] if t[1][1] == "is" else t[2]  # (a guard repeated by a delegated property is taken again)
         return t
 
     ok = same(with_lot(cost), mk_mul([lot_cost, with_lot(pct)]))
